@@ -47,6 +47,13 @@ def flat_qm(qm):
 
 
 def show(cf):
+    try:
+        return _show(cf)
+    except (TypeError, ValueError, KeyError) as e:   # a returned field outside its documented domain (None, wrong type)
+        return "OUT-OF-DOMAIN %s" % type(e).__name__
+
+
+def _show(cf):
     vp = cf["video_parameters"]
     return "|".join([cf["name"], str(int(cf["level"])), str(int(cf["profile"])), str(int(cf["picture_coding_mode"])),
                      str(int(cf["wavelet_index"])), str(int(cf["wavelet_index_ho"])), str(cf["dwt_depth"]), str(cf["dwt_depth_ho"]),
